@@ -309,23 +309,22 @@ fn fresh_probe(v: u8) -> Vec<String> {
 }
 
 fn judge_case(c: &LCase) -> Verdict {
-    let first = judge_once(c, 1);
-    match &first.fail {
-        // real time: a mismatch has to show again with everything three times slower
-        Some(f) if !f.sig.starts_with("panic:") && !f.sig.starts_with("harness:") => {
-            let second = judge_once(c, 3);
-            match &second.fail {
-                Some(g) if g.sig == f.sig => second,
-                Some(_) => second,
-                None => {
-                    let mut v = second;
-                    v.classes.push("passed-on-slower-rerun");
-                    v
+    // real time: a mismatch has to show again with everything three times, then ten times
+    // slower (a genuine defect is deterministic; a scheduling hiccup on a loaded machine is not)
+    let mut last = judge_once(c, 1);
+    for mult in [3u64, 10] {
+        match &last.fail {
+            Some(f) if !f.sig.starts_with("panic:") && !f.sig.starts_with("harness:") => {
+                let mut next = judge_once(c, mult);
+                if next.fail.is_none() {
+                    next.classes.push("passed-on-slower-rerun");
                 }
+                last = next;
             }
+            _ => break,
         }
-        _ => first,
     }
+    last
 }
 
 fn judge_once(c: &LCase, mult: u64) -> Verdict {
